@@ -91,6 +91,17 @@ def run(tier, rep):
     rep.coverage["reference_branches"] = outcome_counts
     for pn in panics:
         rep.violation("panic:%s" % pn.get("location"), pn)
+    if tier == "thorough":
+        from .. import miri
+        mr = common.rng("c02-miri")
+        corpus = []
+        for (doc, claims, url) in cases:
+            if len(corpus) >= 150:
+                break
+            d, _ = rbac.decide(doc, claims, url)
+            if d is not None and (doc.get("mode") or "").lower() != "disabled" and mr.random() < 0.2:
+                corpus.append({"item": doc, "claims": claims, "url": url, "expected": d})
+        miri.run({"rbac": corpus}, [], rep)
     rep.assumptions += ["reference semantics are the Python transcription of the statement in vf/oracles/rbac.py",
                         "URLs with duplicate query keys are judged only when 'first' and 'any' readings agree",
                         "documents with duplicate names are judged by the metamorphic oracle only"]
